@@ -1398,4 +1398,281 @@ theorem ber_indef_accept_iff_spec (fuel : Nat) (d : Bytes) (lo : Option Nat) :
   · rintro ⟨f, ts, rest, hp, _, hc, hb⟩
     exact ⟨f, ts, rest, hp, (allOSL_iff_osContent .ber f _ ts true (Or.inr ⟨rest, hp⟩)).mpr hc, hb⟩
 
+/-! ## 5. every accepted value is well-formed in the sense of C16: all views present the segments -/
+
+theorem wf_of_parseAll (f : Nat) (c : Bytes) (ts : List Tree) (hp : parseAll .ber f c = some ts)
+    (ha : allOSL ts = true) : wfTrees f c = some ts := by
+  have hd := ((parse_good .ber f).2.1 c ts hp).2
+  have hos : osTrees f ts = true := by rw [osTrees_iff_allOSL f ts (by omega)]; exact ha
+  unfold wfTrees
+  simp only [hp, hos, if_true]
+
+theorem wf_of_untilEoc (f : Nat) (c : Bytes) (ts : List Tree) (hp : parseUntilEoc .ber f c = some (ts, []))
+    (ha : allOSL ts = true) : wfTrees f c = some ts := by
+  have hd := ((parse_good .ber f).2.2 c ts [] hp).2
+  have hos : osTrees f ts = true := by rw [osTrees_iff_allOSL f ts (by omega)]; exact ha
+  unfold wfTrees
+  simp only [parseAll_none_of_untilEoc .ber f c ts [] hp, hp, hos, if_true]
+
+/-- **What the capture of an indefinite-length value holds (finding D12).**  If the view `v` is the
+    values `ts` followed by end-of-contents and then `rest`, the octets advanced over —
+    `v.take (v.length - rest.length)`, which is what `from_content` stores — are, by the grammar,
+    the same values followed by the end-of-contents octets and nothing else; in particular they are
+    NOT a plain sequence of values (`parseAll` rejects them), which is why re-encoding them under a
+    definite length is not well-formed (`C16.reencode_ber_d12`).  They are well-formed captured
+    content in the sense of `C16.wfTrees` if the values are all OCTET STRING. -/
+theorem ber_indef_captured (f : Nat) (v : Bytes) (ts : List Tree) (rest : Bytes)
+    (hp : parseUntilEoc .ber f v = some (ts, rest)) :
+    parseUntilEoc .ber f (v.take (v.length - rest.length)) = some (ts, []) ∧
+    parseAll .ber f (v.take (v.length - rest.length)) = none ∧
+    (allOSL ts = true → wfTrees f (v.take (v.length - rest.length)) = some ts) := by
+  obtain ⟨n, hn, hr⟩ := (suffix_lemma .ber f).2 _ _ _ hp
+  have hlen : v.length - rest.length = n := by rw [hr, List.length_drop]; omega
+  rw [hlen]
+  have hsplit : v = v.take n ++ rest := by rw [hr, List.take_append_drop]
+  have h1 : parseUntilEoc .ber f (v.take n) = some (ts, []) := by
+    apply (parse_restrict .ber f).2 (v.take n) rest ts
+    rw [← hsplit]; exact hp
+  exact ⟨h1, parseAll_none_of_untilEoc .ber f _ ts [] h1, fun ha => wf_of_untilEoc f _ ts h1 ha⟩
+
+/-- the views of C16 (`C16.views_eq_concat`) as one predicate: every view of `os` presents the
+    primitive segments of the trees `ts`, in order; their concatenation is the concatenation of
+    the reference contents `Spec.osContent` -/
+def ViewsOK (os : OS) (f : Nat) (ts : List Tree) : Prop :=
+  OS.segments os = .ok (ts.flatMap (osSegments f)) ∧
+  OS.octets os = .ok (ts.flatMap (osSegments f)).flatten ∧
+  (ts.flatMap (osSegments f)).flatten = (ts.filterMap (osContent 4 f)).flatten ∧
+  (ts.filterMap (osContent 4 f)).length = ts.length ∧
+  OS.len os = .ok (ts.flatMap (osSegments f)).flatten.length ∧
+  OS.isEmpty os = .ok (ts.flatMap (osSegments f)).flatten.isEmpty ∧
+  OS.asSlice os = none
+
+theorem views_of_wf (f : Nat) (c : Bytes) (ts : List Tree) (h : wfTrees f c = some ts) : ViewsOK (.cons c) f ts :=
+  C16.views_eq_concat f c ts h
+
+/-- **C16 (BER): every accepted constructed value is well-formed and all its views present the
+    concatenation of the primitive segments.**  For a definite-length value (`c = cD`, limited
+    source) and for an indefinite-length one (`c = cI`, any source): whenever `from_content` +
+    exhaustion check succeeds, the value is `.cons captured` with `C16.wfTrees f captured = some ts`
+    for the trees `ts` the grammar reads from the content — hence `C16.WfOS captured` — and the
+    segment iterator, the octet iterator / `to_bytes`, `len`, `is_empty` succeed (no panic, no fuel
+    problem) and present exactly the primitive leaves of `ts` in order. -/
+theorem ber_accept_views (fuel : Nat) (c : Cons) (d : Bytes) (lo : Option Nat)
+    (hc : (c = cD ∧ lo ≠ none) ∨ c = cI) (os : OS) (ct : Content) (g' : G0)
+    (h : runG0 (fromContentChecked fuel (.cons c)) (St d lo) = .ok ((os, ct), g')) :
+    ∃ f ts captured, os = .cons captured ∧ wfTrees f captured = some ts ∧ WfOS captured ∧ allOSL ts = true ∧
+      (parseAll .ber f (St d lo).view = some ts ∨ ∃ rest, parseUntilEoc .ber f (St d lo).view = some (ts, rest)) ∧
+      ViewsOK os f ts := by
+  rcases hc with ⟨rfl, hlo⟩ | rfl
+  · cases lo with
+    | none => exact absurd rfl hlo
+    | some l =>
+      obtain ⟨hle, f, ts, hp, ha, hb, rfl, _, _⟩ := ber_def_accept_inv fuel d l os ct g' h
+      have hw := wf_of_parseAll f _ ts hp ha
+      exact ⟨f, ts, d.take l, rfl, hw, ⟨f, ts, hw⟩, ha, Or.inl hp, views_of_wf f _ ts hw⟩
+  · obtain ⟨f, ts, rest, hp, ha, hb, rfl, _, _⟩ := ber_indef_accept_inv fuel d lo os ct g' h
+    obtain ⟨_, _, hw⟩ := ber_indef_captured f _ ts rest hp
+    have hw := hw ha
+    have ht : (St d lo).view.take ((St d lo).view.length - rest.length) = d.take ((St d lo).view.length - rest.length) :=
+      C10.take_view (St d lo) _ (by omega)
+    rw [ht] at hw
+    exact ⟨f, ts, _, rfl, hw, ⟨f, ts, hw⟩, ha, Or.inr ⟨rest, hp⟩, views_of_wf f _ ts hw⟩
+
+/-! ## 6. rejection: a content error (or the budget), never a panic -/
+
+theorem specAll_pos (c : Cons) (f : Nat) (g : G0) (ts : List Tree) (c' : Cons) (g' : G0)
+    (h : specAll c f g = some ((ts, c'), g')) : ∃ k, k ≤ g.view.length ∧ g'.data = g.data.drop k := by
+  obtain ⟨s, m⟩ := c
+  unfold specAll at h
+  cases s with
+  | definite =>
+    simp only at h
+    cases hl : g.limit with
+    | none => simp [hl] at h
+    | some l =>
+      simp only [hl] at h
+      by_cases hle : l ≤ g.data.length
+      · simp only [hle, if_true] at h
+        cases hp : parseAll (toM m) f g.view with
+        | none => simp [hp] at h
+        | some ts' =>
+          simp only [hp, Option.map, Option.some.injEq, Prod.mk.injEq] at h
+          obtain ⟨_, rfl⟩ := h
+          have := view_len g
+          rw [hl] at this
+          simp only at this
+          exact ⟨l, by omega, rfl⟩
+      · simp [hle] at h
+  | indefinite =>
+    simp only at h
+    cases hp : parseUntilEoc (toM m) f g.view with
+    | none => simp [hp] at h
+    | some r =>
+      simp only [hp, Option.map, Option.some.injEq, Prod.mk.injEq] at h
+      obtain ⟨_, rfl⟩ := h
+      exact ⟨_, Nat.sub_le _ _, rfl⟩
+  | unbounded =>
+    simp only at h
+    cases hp : parseAll (toM m) f g.view with
+    | none => simp [hp] at h
+    | some ts' =>
+      simp only [hp, Option.map, Option.some.injEq, Prod.mk.injEq] at h
+      obtain ⟨_, rfl⟩ := h
+      exact ⟨_, Nat.le_refl _, rfl⟩
+  | done =>
+    simp only [Option.some.injEq, Prod.mk.injEq] at h
+    obtain ⟨_, rfl⟩ := h
+    exact ⟨0, Nat.zero_le _, rfl⟩
+
+/-- **`from_content` on a constructed value in BER never panics**: for every state of the
+    `Constructed` (a definite one sitting on a limited source, as it always does), every content,
+    every fuel, a failure is a content error or the exhausted budget -/
+theorem fromContent_nopanic (fuel : Nat) (st : CState) (d : Bytes) (lo : Option Nat)
+    (hc : st = .definite → lo ≠ none) (e : Err)
+    (h : runG0 (OS.fromContent fuel (.cons ⟨st, .ber⟩)) (St d lo) = .error e) : e = .content ∨ e = .fuel := by
+  rw [fromContent_run] at h
+  cases hloop : runG0 (OS.berLoop ⟨st, .ber⟩ fuel fuel) (St d lo) with
+  | error e' =>
+    rw [hloop] at h
+    simp only [Except.error.injEq] at h
+    subst h
+    exact berLoop_nopanic fuel fuel ⟨st, .ber⟩ (St d lo) _ rfl hc hloop
+  | ok x =>
+    obtain ⟨c', g2⟩ := x
+    rw [hloop] at h
+    obtain ⟨f, ts, hsp, _⟩ := berLoop_inv fuel fuel _ _ _ _ rfl hloop
+    obtain ⟨k, hk, hd⟩ := specAll_pos _ _ _ _ _ _ hsp
+    cases lo with
+    | none => cases h
+    | some lim =>
+      have h1 := view_le_limit (St d (some lim)) lim rfl
+      have h2 := (St d (some lim)).view_length_le
+      have hk' : d.length - g2.data.length = k := by
+        rw [hd]; show d.length - (d.drop k).length = k; rw [List.length_drop]
+        have : k ≤ d.length := Nat.le_trans hk h2
+        omega
+      have hl : ¬ lim < d.length - g2.data.length := by omega
+      simp only [hl, if_false] at h
+      cases h
+
+/-- **C16 (BER, rejection).**  For a definite-length constructed value (limited source) and for an
+    indefinite-length one (any source), whatever the content: if `from_content` + exhaustion check
+    does not succeed, it fails with a content error or because the budget ran out — never a panic. -/
+theorem ber_reject (fuel : Nat) (c : Cons) (d : Bytes) (lo : Option Nat)
+    (hc : (c = cD ∧ lo ≠ none) ∨ c = cI) (e : Err)
+    (h : runG0 (fromContentChecked fuel (.cons c)) (St d lo) = .error e) : e = .content ∨ e = .fuel := by
+  cases hfc : runG0 (OS.fromContent fuel (.cons c)) (St d lo) with
+  | error e' =>
+    rw [checked_of_err _ _ _ _ hfc] at h
+    simp only [Except.error.injEq] at h
+    subst h
+    rcases hc with ⟨rfl, hlo⟩ | rfl
+    · exact fromContent_nopanic fuel .definite d lo (fun _ => hlo) _ hfc
+    · exact fromContent_nopanic fuel .indefinite d lo (fun hh => by cases hh) _ hfc
+  | ok x =>
+    obtain ⟨r, g1⟩ := x
+    rcases hc with ⟨rfl, hlo⟩ | rfl
+    · cases lo with
+      | none => exact absurd rfl hlo
+      | some l =>
+        obtain ⟨hle, f, ts, hp, ha, hb, _, _⟩ := ber_def_fc_inv fuel d l r g1 hfc
+        rw [ber_def_run fuel d l f ts hle hp hb, if_pos ha] at h
+        cases h
+    · obtain ⟨f, ts, rest, hp, ha, hb, _, _⟩ := ber_indef_fc_inv fuel d lo r g1 hfc
+      rw [ber_indef_run fuel d lo f ts rest hp hb, if_pos ha] at h
+      cases h
+
+mutual
+/-- `allOS` spelled out on the trace: every identifier met, at every depth, is universal 4 -/
+theorem allOS_iff_preorder : ∀ (t : Tree) (dep : Nat),
+    allOS t = true ↔ ∀ p ∈ preorder t dep, p.1.cls = 0 ∧ p.1.num = 4
+  | .prim id _, dep => by simp [allOS, preorder]
+  | .cons id _ kids, dep => by
+    simp only [allOS, preorder, Bool.and_eq_true, beq_iff_eq, List.mem_cons, forall_eq_or_imp]
+    rw [allOSL_iff_preorderL kids (dep + 1)]
+theorem allOSL_iff_preorderL : ∀ (ts : List Tree) (dep : Nat),
+    allOSL ts = true ↔ ∀ p ∈ preorderL ts dep, p.1.cls = 0 ∧ p.1.num = 4
+  | [], dep => by simp [allOSL, preorderL]
+  | t :: ts, dep => by
+    simp only [allOSL, preorderL, Bool.and_eq_true, List.mem_append]
+    rw [allOS_iff_preorder t dep, allOSL_iff_preorderL ts dep]
+    constructor
+    · rintro ⟨h1, h2⟩ p (hp | hp)
+      · exact h1 p hp
+      · exact h2 p hp
+    · intro h
+      exact ⟨fun p hp => h p (Or.inl hp), fun p hp => h p (Or.inr hp)⟩
+end
+
+/-- **A foreign tag at any depth is rejected, whatever the budget** (definite length): if the
+    content octets parse as values among which some identifier, at some depth, is not universal 4,
+    `from_content` fails, with a content error or (if `fuel` is too small to get that far) the
+    budget; with a sufficient budget it is a content error (`ber_def_run`). -/
+theorem ber_def_reject_foreign (fuel : Nat) (d : Bytes) (l f : Nat) (ts : List Tree)
+    (hp : parseAll .ber f (d.take l) = some ts)
+    (hbad : ∃ p ∈ preorderL ts 0, ¬ (p.1.cls = 0 ∧ p.1.num = 4)) :
+    ∃ e, runG0 (fromContentChecked fuel (.cons cD)) (St d (some l)) = .error e ∧ (e = .content ∨ e = .fuel) := by
+  have hna : ¬ allOSL ts = true := by
+    rw [allOSL_iff_preorderL ts 0]
+    obtain ⟨p, hp1, hp2⟩ := hbad
+    exact fun hh => hp2 (hh p hp1)
+  cases hr : runG0 (fromContentChecked fuel (.cons cD)) (St d (some l)) with
+  | error e => exact ⟨e, rfl, ber_reject fuel cD d (some l) (Or.inl ⟨rfl, by simp⟩) e hr⟩
+  | ok x =>
+    obtain ⟨⟨os, ct⟩, g'⟩ := x
+    obtain ⟨_, f', ts', hp', ha', _⟩ := ber_def_accept_inv fuel d l os ct g' hr
+    have e1 := C10.parseAll_mono .ber f (max f f') (Nat.le_max_left _ _) _ _ hp
+    have e2 := C10.parseAll_mono .ber f' (max f f') (Nat.le_max_right _ _) _ _ hp'
+    rw [e1] at e2
+    simp only [Option.some.injEq] at e2
+    subst e2
+    exact absurd ha' hna
+
+/-- the same for an indefinite-length value -/
+theorem ber_indef_reject_foreign (fuel : Nat) (d : Bytes) (lo : Option Nat) (f : Nat) (ts : List Tree) (rest : Bytes)
+    (hp : parseUntilEoc .ber f (St d lo).view = some (ts, rest))
+    (hbad : ∃ p ∈ preorderL ts 0, ¬ (p.1.cls = 0 ∧ p.1.num = 4)) :
+    ∃ e, runG0 (fromContentChecked fuel (.cons cI)) (St d lo) = .error e ∧ (e = .content ∨ e = .fuel) := by
+  have hna : ¬ allOSL ts = true := by
+    rw [allOSL_iff_preorderL ts 0]
+    obtain ⟨p, hp1, hp2⟩ := hbad
+    exact fun hh => hp2 (hh p hp1)
+  cases hr : runG0 (fromContentChecked fuel (.cons cI)) (St d lo) with
+  | error e => exact ⟨e, rfl, ber_reject fuel cI d lo (Or.inr rfl) e hr⟩
+  | ok x =>
+    obtain ⟨⟨os, ct⟩, g'⟩ := x
+    obtain ⟨f', ts', rest', hp', ha', _⟩ := ber_indef_accept_inv fuel d lo os ct g' hr
+    have e1 := C10.parseUntilEoc_mono .ber f (max f f') (Nat.le_max_left _ _) _ _ hp
+    have e2 := C10.parseUntilEoc_mono .ber f' (max f f') (Nat.le_max_right _ _) _ _ hp'
+    rw [e1] at e2
+    simp only [Option.some.injEq, Prod.mk.injEq] at e2
+    obtain ⟨rfl, _⟩ := e2
+    exact absurd ha' hna
+
+/-- **Malformed nested structure is rejected** (definite length): if the content octets are not all
+    there, or are not a sequence of BER values for any parse fuel, `from_content` fails with a
+    content error or the budget, for every fuel. -/
+theorem ber_def_reject_malformed (fuel : Nat) (d : Bytes) (l : Nat)
+    (hbad : d.length < l ∨ ∀ f, parseAll .ber f (d.take l) = none) :
+    ∃ e, runG0 (fromContentChecked fuel (.cons cD)) (St d (some l)) = .error e ∧ (e = .content ∨ e = .fuel) := by
+  cases hr : runG0 (fromContentChecked fuel (.cons cD)) (St d (some l)) with
+  | error e => exact ⟨e, rfl, ber_reject fuel cD d (some l) (Or.inl ⟨rfl, by simp⟩) e hr⟩
+  | ok x =>
+    obtain ⟨⟨os, ct⟩, g'⟩ := x
+    obtain ⟨hle, f', ts', hp', _⟩ := ber_def_accept_inv fuel d l os ct g' hr
+    rcases hbad with hbad | hbad
+    · omega
+    · rw [hbad f'] at hp'; cases hp'
+
+/-- the same for an indefinite-length value: no values-then-end-of-contents in view -/
+theorem ber_indef_reject_malformed (fuel : Nat) (d : Bytes) (lo : Option Nat)
+    (hbad : ∀ f, parseUntilEoc .ber f (St d lo).view = none) :
+    ∃ e, runG0 (fromContentChecked fuel (.cons cI)) (St d lo) = .error e ∧ (e = .content ∨ e = .fuel) := by
+  cases hr : runG0 (fromContentChecked fuel (.cons cI)) (St d lo) with
+  | error e => exact ⟨e, rfl, ber_reject fuel cI d lo (Or.inr rfl) e hr⟩
+  | ok x =>
+    obtain ⟨⟨os, ct⟩, g'⟩ := x
+    obtain ⟨f', ts', rest', hp', _⟩ := ber_indef_accept_inv fuel d lo os ct g' hr
+    rw [hbad f'] at hp'; cases hp'
+
 end Bcder.Props.C16b
